@@ -183,7 +183,7 @@ def executed_pads(text):
     return total
 
 
-def classify(files, outs, charset="bk"):
+def classify(files, outs, charset="bk", pad_weight=1):
     """-> (None | (sig, msg), class label)"""
     for out, hk in zip(outs, ("bare", "graphical", "bare (every warning switched off)")):
         if out.kind == "crash":
@@ -199,7 +199,7 @@ def classify(files, outs, charset="bk"):
         stack = next((o.exc[2] for o in outs if o.kind == "timeout" and o.exc and isinstance(o.exc[2], list)), [])
         in_repeat = ("metacommands.py", "repeat") in stack          # a finite range() loop is running
         in_lazy = any(f == "deferred.py" for f, _ in stack[-6:])
-        if in_repeat or (in_lazy and executed_pads(text) > 10):
+        if in_repeat or (in_lazy and executed_pads(text) * pad_weight > 10):
             return None, "inconclusive-slow-finite"
         # confirm in a fresh process with a generous limit - once per shard: every further watchdog hit behind a confirmed hang is
         # only counted (re-confirming each one, also while shrinking, would cost more than a minute apiece)
@@ -284,6 +284,18 @@ def tree_case(draw):
         for i in range(1, wrapped + 1):
             if f"wq{i}" in tree[path] and f"wq{i} =" not in tree[path]:
                 tree[path] += f"wq{i} = 2\n"
+    if draw(st.integers(0, 5)) == 0:
+        # a file that includes itself, directly or through the file that includes it, with or without .once
+        # (a small file of its own: 32 nested copies of a generated file would only be slow)
+        how = draw(st.sampled_from(["self", "self-once", "cycle", "cycle-once"]))
+        once = "\t.once\n" if how.endswith("once") else ""
+        if how.startswith("self"):
+            tree["inc/loop.mac"] = once + "lq:\tnop\n\t.include \"loop.mac\"\n\t.word lq\n"
+        else:
+            tree["inc/loop.mac"] = once + "lq:\tnop\n\t.include \"loop2.mac\"\n"
+            tree["inc/loop2.mac"] = "\tclr r0\n\t.include \"./loop.mac\"\n"
+        path = draw(st.sampled_from(sorted(prog["mains"])))
+        tree[path] += '\t.include "inc/loop.mac"\n'
     muts = draw(st.lists(mutation_st, max_size=4))
     which = draw(st.sampled_from(sorted(tree)))
     tree[which] = apply_mutations(tree[which], muts)
@@ -371,7 +383,10 @@ def judge(case):
         with driver.Scratch(tree) as sc:
             files = [(os.path.join(sc.path, m), case["tree"][m]) for m in case["mains"]]
             outs = probe(files, case.get("charset", "bk"))
-            res, label = classify(files, outs, case.get("charset", "bk"))
+            # every file of the tree counts for the padding estimate; a file that includes itself is assembled 32 times
+            everything = [(p_, t) for p_, t in sorted(case["tree"].items())]
+            selfinc = any(re.search(r'\.include\s+"' + re.escape(os.path.basename(p_)) + '"', t, re.I) for p_, t in everything)
+            res, label = classify(everything, outs, case.get("charset", "bk"), pad_weight=32 if selfinc else 1)
         return res, label, outs
     files = [(f"/vf/t{i}.mac", t) for i, t in enumerate(case["texts"])]
     outs = probe(files, case.get("charset", "bk"))
